@@ -162,8 +162,18 @@ def h7(prog, tier="quick"):
         return Vec([Struct("cov_range", {"start": s, "length": l}) for s, l in runs], "coverage")
 
     class Cst:
+        """a constant of the address domain; constants of one domain order by value (decided by C09's O-rules), the mixed-domain
+        case is interpreted from source further down"""
         def __init__(self, v, dom, pos=None):
             self.v, self.dom, self.pos = v, dom, pos
+
+        def _chk(self, o):
+            if not isinstance(o, Cst) or o.dom != self.dom:
+                raise Broken("comparison of constants of different domains in the single-domain model")
+
+        def cmp_with(self, op, o):
+            self._chk(o)
+            return {"<": self.v < o.v, ">": self.v > o.v, "<=": self.v <= o.v, ">=": self.v >= o.v, "==": self.v == o.v, "!=": self.v != o.v}[op]
 
     class VCst:
         def __init__(self, c, pos):
@@ -445,6 +455,87 @@ def h7(prog, tier="quick"):
                     report("H7:word:aset", "libzwerg/" + f_mk["l"], why or "`%#x %#x aset` yields %s instead of [%#x, %#x)" % (x, y, show(_canon(m, U)), lo, hi))
     for w in ("length", "low", "high", "?empty", "elem", "relem", "range", "add-cst", "sub-cst", "?contains-cst", "aset"):
         inst.append(("H7:word:" + w, {"sets": len(allm)}))
+    # `aset` on constants of any domain and sign: op_aset_cst_cst::operate together with addressify and the comparison operators of
+    # `constant` they use, interpreted from source on constants of plain, radix and named (non-arithmetic) domains, negative values
+    # included, under both address orders of the domain objects: the set is [min, max) of the two values clamped at 0, whatever the
+    # domains (a warning is printed for unsuitable constants, the operation still succeeds).
+    import itertools
+    import r_order
+    from cxxobj import OStream
+    dec = r_order.Dom("dec", True)
+    hexd = r_order.Dom("hex", True)
+    n1 = r_order.Dom("N1", False)
+    n2 = r_order.Dom("N2", False)
+    doms2 = [dec, hexd, n1, n2]
+    hooks2 = dict(hooks)
+    hooks2.pop("(anonymous namespace)::addressify", None)
+    hooks2.update({
+        "constant::dom": lambda ev_, o, a: o.dom,
+        "constant::value": lambda ev_, o, a: o.value,
+        "constant::brevity": lambda ev_, o, a: 0,
+        "zw_cdom::safe_arith": lambda ev_, o, a: o.arith,
+        "constant_dom::safe_arith": lambda ev_, o, a: o.arith,
+        "zw_cdom::most_enclosing": lambda ev_, o, a: o.enclosing(a[0]),
+        "constant_dom::most_enclosing": lambda ev_, o, a: o.enclosing(a[0]),
+        "zw_cdom::show": lambda ev_, o, a: a[1].put(Ptr_str(o.name)) and None,
+        "constant_dom::show": lambda ev_, o, a: a[1].put(Ptr_str(o.name)) and None,
+        "ctor:std::less<*": lambda ev_, o, a: (lambda ev2_, args: (0 if args[0] is None else args[0].addr) < (0 if args[1] is None else args[1].addr)),
+        "ctor:mpz_class": lambda ev_, o, a: a[0] if a else 0,
+        "ctor:constant": lambda ev_, o, a: a[0] if len(a) == 1 else r_order.Const(a[1], a[0]),
+        "operator<<": None,
+    })
+    hooks2.pop("operator<<", None)
+
+    def rel(opname, pyop):
+        def h(ev_, o, a):
+            l, r = (o, a[0]) if o is not None and len(a) == 1 else (a[0], a[1])
+            if isinstance(l, int) and isinstance(r, int):
+                return pyop(l, r)
+            f_ = prog.func_opt("constant::" + opname)
+            if f_ is None or not isinstance(l, r_order.Const):
+                raise Broken("%s on operands the address-set model does not know" % opname)
+            return ev_.call(f_, l, [r])
+        return h
+    hooks2["operator>"] = rel("operator>", lambda x, y: x > y)
+    hooks2["operator<"] = rel("operator<", lambda x, y: x < y)
+    from cxxobj import StdStr
+
+    def Ptr_str(txt):
+        return StdStr(txt.encode())
+    cerr = OStream()
+    ev2 = CxxEvaluator(hooks2, {"dec_constant_dom": dec, "std::cerr": cerr}, prog=prog, structs={"cov_range": ["start", "length"]},
+                       defaults={"coverage": lambda: mkcov([])})
+    key = "H7:word:aset-any-constant"
+    n_mk = 0
+    bad_mk = None
+    for da, db in itertools.product(doms2, repeat=2):
+        for x, y in itertools.product((-2, 0, 1, 3, 5), repeat=2):
+            for order in ((da, db), (db, da)):
+                for i, d in enumerate(dict.fromkeys(list(order) + [dec, hexd, n1, n2])):
+                    d.addr = 1000 + i
+                ca, cb = r_order.Const(da, x), r_order.Const(db, y)
+                for c_ in (ca, cb):
+                    c_.m_dom, c_.m_value, c_.m_brv = c_.dom, c_.value, 0
+                    c_._cls = "constant"          # its comparison operators are interpreted from constant.cc
+                ev2.steps = 0
+                try:
+                    r = ev2.call(f_mk, _op(ev2, f_mk), [VCst(ca, 0), VCst(cb, 0)])
+                except OutOfBounds as x_:
+                    bad_mk = bad_mk or "`aset` of %r and %r: %s" % (ca, cb, x_)
+                    continue
+                except Thrown as x_:
+                    bad_mk = bad_mk or "`aset` of %r and %r raises an error (%s)" % (ca, cb, x_)
+                    continue
+                n_mk += 1
+                lo, hi = sorted((max(x, 0), max(y, 0)))
+                got = [(r_.start, r_.length) for r_ in r.cov.items]
+                want = [(lo, hi - lo)] if hi > lo else []
+                if got != want and bad_mk is None:
+                    bad_mk = "`%r %r aset` yields the runs %s; expected %s (the interval between the two values, in either order, negative values clamped to 0)" % (
+                        ca, cb, [(hex(s_), l_) for s_, l_ in got], want)
+    inst.append((key, {"evaluations": n_mk}))
+    if bad_mk:
+        report(key, "libzwerg/" + f_mk["l"], bad_mk)
     # equality: value_aset::cmp answers equal exactly for equal canonical forms
     fc = prog.func_opt("value_aset::cmp")
     if fc is None:
